@@ -4,23 +4,25 @@ go 1.23.4
 
 require (
 	deps.dev/api/v3 v3.0.0-20240311054650-e1e6a3d70fb7
+	deps.dev/api/v3alpha v0.0.0-00010101000000-000000000000
 	deps.dev/util/maven v0.0.0-20240322043601-ff53416fec6a
 	deps.dev/util/pypi v0.0.0-20250307021655-d811e36f9cad
 	deps.dev/util/resolve v0.0.0-00010101000000-000000000000
 	deps.dev/util/semver v0.0.0-20241230231135-52b7655a522f
+	google.golang.org/genproto v0.0.0-20230410155749-daa745c078e1
+	google.golang.org/protobuf v1.36.6
 )
 
 require (
 	golang.org/x/net v0.38.0 // indirect
 	golang.org/x/sys v0.31.0 // indirect
 	golang.org/x/text v0.23.0 // indirect
-	google.golang.org/genproto v0.0.0-20230410155749-daa745c078e1 // indirect
 	google.golang.org/grpc v1.71.1 // indirect
-	google.golang.org/protobuf v1.36.6 // indirect
 )
 
 replace (
 	deps.dev/api/v3 => /repo/api/v3
+	deps.dev/api/v3alpha => /repo/api/v3alpha
 	deps.dev/util/maven => /repo/util/maven
 	deps.dev/util/pypi => /repo/util/pypi
 	deps.dev/util/resolve => /repo/util/resolve
